@@ -409,6 +409,17 @@ pub fn parse_cache_if_attribute(nv: &MetaNameValue) -> Result<syn::Path, TokenSt
     }
 }
 
+/// The value parsers report an invalid value by returning `compile_error!` tokens that are spliced
+/// where the value goes. Surface such a result as an error right away: otherwise a later
+/// occurrence of the same attribute overwrites it and the invalid value is silently ignored.
+fn reject_invalid(tokens: TokenStream2) -> Result<TokenStream2, TokenStream2> {
+    if tokens.to_string().starts_with("compile_error") {
+        Err(tokens)
+    } else {
+        Ok(tokens)
+    }
+}
+
 /// Parse common attributes shared between async and sync caches
 /// Returns true if the attribute was recognized and processed
 fn parse_common_attribute(
@@ -426,7 +437,7 @@ fn parse_common_attribute(
         *custom_name = parse_name_attribute(nv);
         Ok(true)
     } else if nv.path.is_ident("max_memory") {
-        *max_memory = parse_max_memory_attribute(nv);
+        *max_memory = reject_invalid(parse_max_memory_attribute(nv))?;
         Ok(true)
     } else if nv.path.is_ident("tags") {
         *tags = parse_string_array_attribute(nv)?;
@@ -444,7 +455,7 @@ fn parse_common_attribute(
         *cache_if = Some(parse_cache_if_attribute(nv)?);
         Ok(true)
     } else if nv.path.is_ident("frequency_weight") {
-        *frequency_weight = parse_frequency_weight_attribute(nv);
+        *frequency_weight = reject_invalid(parse_frequency_weight_attribute(nv))?;
         Ok(true)
     } else {
         Ok(false)
@@ -465,14 +476,14 @@ pub fn parse_async_attributes(attr: TokenStream2) -> Result<AsyncCacheAttributes
 
     for nv in parsed_args {
         if nv.path.is_ident("limit") {
-            attrs.limit = parse_limit_attribute(&nv);
+            attrs.limit = reject_invalid(parse_limit_attribute(&nv))?;
         } else if nv.path.is_ident("policy") {
             match parse_policy_attribute(&nv) {
                 Ok(policy_str) => attrs.policy = quote! { #policy_str },
                 Err(err) => return Err(err),
             }
         } else if nv.path.is_ident("ttl") {
-            attrs.ttl = parse_ttl_attribute(&nv);
+            attrs.ttl = reject_invalid(parse_ttl_attribute(&nv))?;
         } else {
             // Try to parse as common attribute
             if !parse_common_attribute(
@@ -518,7 +529,7 @@ pub fn parse_sync_attributes(attr: TokenStream2) -> Result<SyncCacheAttributes, 
 
     for nv in parsed_args {
         if nv.path.is_ident("limit") {
-            attrs.limit = parse_limit_attribute(&nv);
+            attrs.limit = reject_invalid(parse_limit_attribute(&nv))?;
         } else if nv.path.is_ident("policy") {
             match parse_policy_attribute(&nv) {
                 Ok(policy_str) => {
@@ -543,7 +554,7 @@ pub fn parse_sync_attributes(attr: TokenStream2) -> Result<SyncCacheAttributes, 
                 Err(err) => return Err(err),
             }
         } else if nv.path.is_ident("ttl") {
-            attrs.ttl = parse_ttl_attribute(&nv);
+            attrs.ttl = reject_invalid(parse_ttl_attribute(&nv))?;
         } else if nv.path.is_ident("scope") {
             match parse_scope_attribute(&nv) {
                 Ok(scope_str) => {
